@@ -179,10 +179,14 @@ def gpg_pair_grid():
 
 def gen_pair_case(rng, root, combo):
     _tag, a1, a2, extra = combo
-    ch = scen.gen_chain(rng, root, n_steps=1, n_insp=0, thresholds=(1,), max_funcs=1, fmt_mode="mixed")
-    step = ch.steps[0]
+    # the focus step is the last of 1-3 steps: the earlier ones are carried out by other functionaries, who must
+    # not count towards the focus step's threshold
+    ch = scen.gen_chain(rng, root, n_steps=rng.choice([1, 2, 3]), n_insp=0, thresholds=(1,), max_funcs=2, fmt_mode="mixed")
+    step = ch.steps[-1]
+    others_used = {k.keyid for st in ch.steps[:-1] for k in st["keys"]}
     for k in step["keys"]:
-        ch.layout_keys.pop(k.keyid, None)
+        if k.keyid not in others_used:
+            ch.layout_keys.pop(k.keyid, None)
     m = W.gpg_key("two_subs")
     ch.layout_keys[m.keyid] = m.pub
     keystore = {m.keyid: m.pub}
@@ -198,7 +202,7 @@ def gen_pair_case(rng, root, combo):
         if main:
             mains.add(main)
     if extra:
-        pk = [k for k in W.pool() if k not in ch.owners][0]
+        pk = [k for k in W.pool() if k not in ch.owners and k.keyid not in others_used][0]
         ch.layout_keys[pk.keyid] = pk.pub
         pubkeys = pubkeys + [pk.keyid]
         links.append(scen.link_spec(pk, "metablock", step["name"], step["materials"], step["products"]))
@@ -208,7 +212,7 @@ def gen_pair_case(rng, root, combo):
     step["pubkeys"], step["threshold"], step["links"] = pubkeys, 2, links
     desc = {"gpg": True, "gpg_mode": "pair_grid", "grid": {"authorised": [a1[:8], a2[:8]], "extra_plain_functionary": extra},
             "files": files, "threshold": 2, "good_functionaries": len(mains), "expected_accept": len(mains) >= 2,
-            "focus": step["name"]}
+            "focus": step["name"], "steps_before_focus": len(ch.steps) - 1}
     return ch, desc
 
 
